@@ -340,3 +340,85 @@ func replayC17Groups(rc *runCtx, h *harness, v *interp.Violation, file string) (
 	}
 	return false, "the real registry matches the groups of the shipped rule data"
 }
+
+// badIdentityClaim judges dupSubExpr-style diagnostics on a realised program:
+// a binary expression reported as having identical operands must not contain a
+// function call (conversions excepted) or a channel receive in an operand.
+func badIdentityClaim(src, wsJSON string) string {
+	var ws []struct {
+		Pos, Text string
+		Offset    int
+	}
+	if err := json.Unmarshal([]byte(wsJSON), &ws); err != nil || len(ws) == 0 {
+		return ""
+	}
+	srcImporterOnce.Do(initSrcImporter)
+	fset := token.NewFileSet()
+	f, err := parser.ParseFile(fset, "cand.go", src, 0)
+	if err != nil {
+		return ""
+	}
+	info := &types.Info{Types: map[ast.Expr]types.TypeAndValue{}}
+	conf := types.Config{Importer: lockedImporter{}, Error: func(error) {}}
+	conf.Check("cand", fset, []*ast.File{f}, info)
+	tf := fset.File(f.Pos())
+	for _, w := range ws {
+		bad := ""
+		ast.Inspect(f, func(n ast.Node) bool {
+			be, ok := n.(*ast.BinaryExpr)
+			if !ok || bad != "" || tf.Offset(be.Pos()) != w.Offset {
+				return true
+			}
+			ast.Inspect(be, func(m ast.Node) bool {
+				switch x := m.(type) {
+				case *ast.CallExpr:
+					if tv, ok := info.Types[x.Fun]; !ok || !tv.IsType() {
+						bad = fmt.Sprintf("%q at %s: the operands call %s, which may return a different value each time", w.Text, w.Pos, src[tf.Offset(x.Pos()):tf.Offset(x.End())])
+					}
+				case *ast.UnaryExpr:
+					if x.Op == token.ARROW {
+						bad = fmt.Sprintf("%q at %s: the operands receive from a channel", w.Text, w.Pos)
+					}
+				}
+				return bad == ""
+			})
+			return true
+		})
+		if bad != "" {
+			return bad
+		}
+	}
+	return ""
+}
+
+// replayDupSubExpr: rebuild the template from the model, let the real checker
+// flag it, and judge the flagged expression with the native identity oracle.
+func replayDupSubExpr(rc *runCtx, h *harness, v *interp.Violation, file string) (bool, string) {
+	kind := int(v.Model["choose:operand?c"].I.Int64())
+	opn := int(v.Model["op?i"].I.Int64())
+	operands := []string{"x", "x + 1", "int(x)", "p.f", "a[x]", "f()", "<-ch", "x + f()"}
+	if kind < 0 || kind >= len(operands) {
+		return false, "model without an operand kind"
+	}
+	e := operands[kind]
+	op := token.Token(opn).String()
+	expr := fmt.Sprintf("(%s) %s (%s)", e, op, e)
+	if kind == 0 || kind == 3 || kind == 4 || kind == 5 {
+		expr = fmt.Sprintf("%s %s %s", e, op, e)
+	}
+	src := "package cand\n\nvar (\n\tx  int\n\tp  struct{ f int }\n\ta  []int\n\tch chan int\n)\n\nfunc f() int { x++; return x }\n\nfunc gsxF() interface{} {\n\treturn " + expr + "\n}\n"
+	if ok, msg := typeCheck(src); !ok {
+		return false, "the rebuilt program does not type-check: " + msg
+	}
+	results, err := runRealised("dupSubExpr", nil, []string{src}, "")
+	if err != nil {
+		return false, err.Error()
+	}
+	if len(results) == 0 || results[0].Status != "OK" {
+		return false, fmt.Sprintf("not analysed: %+v", results)
+	}
+	if bad := badIdentityClaim(src, results[0].JSON); bad != "" {
+		return true, bad + "\n" + src
+	}
+	return false, "the real checker does not report `" + expr + "`"
+}
